@@ -171,7 +171,14 @@ Proof.
 Qed.
 
 (* ------------------------------------------------------------------ one iteration *)
-Definition post (s0 : slurper) (r0 : reader) (o : outcome) (s' : slurper) (r' : reader) : Prop :=
+(* what is held in memory: never more than what is allocated; above the per-message limit only
+   in the moment the message is rejected *)
+Definition held_ok (s0 : slurper) (o : outcome) (s' : slurper) : Prop :=
+  bytesRead s' <= allocated s' /\
+  (o <> RTooLarge -> maxSize s0 = 0 \/ bytesRead s' <= maxSize s0) /\
+  (o = ROk -> bytesRead s' = size s').
+
+Definition post0 (s0 : slurper) (r0 : reader) (o : outcome) (s' : slurper) (r' : reader) : Prop :=
   ginv s' /\ maxSize s' = maxSize s0 /\
   (0 < maxSize s0 -> allocated s' <= N.max B (maxSize s0 + allocationStep)) /\
   match o with
@@ -182,6 +189,9 @@ Definition post (s0 : slurper) (r0 : reader) (o : outcome) (s' : slurper) (r' : 
   | RPanic => False
   | ROutOfFuel => True
   end.
+
+Definition post (s0 : slurper) (r0 : reader) (o : outcome) (s' : slurper) (r' : reader) : Prop :=
+  post0 s0 r0 o s' r' /\ held_ok s0 o s'.
 
 Definition bump (s : slurper) (n : N) : slurper :=
   mkS (remained s) (bytesRead s + n) (maxSize s) (nslots s) (b0 s) (ext s).
@@ -265,6 +275,17 @@ Proof.
     fold (sum_len t) (sum_cap t). rewrite (sum_len_full _ Ht). lia.
 Qed.
 
+Lemma size_free_le s :
+  Forall (fun b => blen b <= bcap b) (b0 s :: ext s) ->
+  size s + (bcap (cur s) - blen (cur s)) <= allocated s.
+Proof.
+  intros H. inversion H as [|? ? H1 H2]; subst. unfold size, allocated, cur.
+  destruct (ext s) as [|c t]; cbn [sum_len sum_cap fold_right].
+  - lia.
+  - inversion H2 as [|? ? H3 H4]; subst. fold (sum_len t) (sum_cap t).
+    pose proof (sum_len_le _ H4). lia.
+Qed.
+
 (* the read part of the loop body, from a state whose current buffer has free space *)
 Lemma read_into_spec s r :
   linv s r -> blen (cur s) < bcap (cur s) ->
@@ -292,9 +313,13 @@ Proof.
   cbn [maxSize bytesRead bump].
   destruct ((0 <? maxSize s) && (maxSize s <? bytesRead s + n)) eqn:Hover.
   - (* over the per-message limit *)
-    split; [|discriminate]. unfold post. cbn [maxSize bump].
-    split; [exact Hb_g|]. split; [reflexivity|]. split; [exact Hal|].
-    left. lia.
+    split; [|discriminate]. pose proof (size_free_le s Hlen) as Hfr.
+    split.
+    + unfold post0. cbn [maxSize bump].
+      split; [exact Hb_g|]. split; [reflexivity|]. split; [exact Hal|].
+      left. lia.
+    + unfold held_ok. cbn [bytesRead bump]. rewrite Hb_alloc.
+      split; [lia|]. split; [intros Hc; congruence|discriminate].
   - set (c' := mkBuf (bcap (cur s)) (blen (cur s) + n) ((rpos r, n) :: bsegs (cur s))).
     set (s2 := set_cur (bump s n) c').
     destruct (set_cur_fields (bump s n) c') as (F1 & F2 & F3 & F4 & F5 & F6).
@@ -328,15 +353,22 @@ Proof.
       destruct (N.le_gt_cases (bcap (cur s) - blen (cur s)) (rtotal r - rpos r)); [left|right]; lia.
     + (* REOF: done, everything committed *)
       split; [|discriminate]. specialize (Heof eq_refl).
-      destruct Hlinv' as (G & L2 & _ & _ & Hp2 & _ & Hc2 & Hm2 & Ha2).
-      unfold post. split; [exact G|]. split; [exact F3|]. rewrite F3 in Ha2. split; [exact Ha2|].
-      assert (Hsize : size s2 = rtotal r) by lia.
-      split; [exact Hsize|]. split; [rewrite <- Hsize; exact Hc2|].
-      split; [rewrite F2, F3 in Hm2; lia|].
-      pose proof (ginv_allocated _ G). pose proof (size_le_allocated _ L2). lia.
+      destruct Hlinv' as (G & L2 & _ & Hbr2 & Hp2 & _ & Hc2 & Hm2 & Ha2).
+      pose proof (size_le_allocated _ L2) as Hsa2.
+      split.
+      { unfold post0. split; [exact G|]. split; [exact F3|]. rewrite F3 in Ha2. split; [exact Ha2|].
+        assert (Hsize : size s2 = rtotal r) by lia.
+        split; [exact Hsize|]. split; [rewrite <- Hsize; exact Hc2|].
+        split; [rewrite F2, F3 in Hm2; lia|].
+        pose proof (ginv_allocated _ G). lia. }
+      unfold held_ok. rewrite F3 in Hm2. split; [lia|]. split; [intros _; exact Hm2|intros _; exact Hbr2].
     + (* RFail *)
-      split; [|discriminate]. unfold post. cbn [maxSize bump].
-      split; [exact Hb_g|]. split; [reflexivity|]. split; [exact Hal|]. apply Hfail. reflexivity.
+      split; [|discriminate]. pose proof (size_free_le s Hlen) as Hfr.
+      split.
+      { unfold post0. cbn [maxSize bump].
+        split; [exact Hb_g|]. split; [reflexivity|]. split; [exact Hal|]. apply Hfail. reflexivity. }
+      unfold held_ok. cbn [bytesRead bump]. rewrite Hb_alloc.
+      split; [lia|]. split; [intros _; lia|discriminate].
 Qed.
 
 (* termination measure of the loop *)
@@ -353,7 +385,8 @@ Lemma post_weaken s r s1 r1 o s' r' :
   (forall x, In x (rscript r1) -> In x (rscript r)) ->
   post s1 r1 o s' r' -> post s r o s' r'.
 Proof.
-  intros Hm Ht Hi (P1 & P2 & P3 & P4). unfold post. rewrite <- Hm, <- Ht.
+  intros Hm Ht Hi ((P1 & P2 & P3 & P4) & Hh). unfold post, post0, held_ok in *. rewrite <- Hm, <- Ht.
+  split; [|exact Hh].
   split; [exact P1|]. split; [exact P2|]. split; [exact P3|].
   destruct o; auto. eapply has_err_incl; eauto.
 Qed.
@@ -376,8 +409,9 @@ Proof.
       destruct (rread r 1) as [[n e] r'] eqn:Hr.
       destruct (rread_spec _ _ _ _ _ Hr Hle) as (HnL & Hp' & Hp'le & Ht' & Heof & Hfail & Hincl & Hsc).
       destruct (N.ltb_spec 0 n) as [Hn|Hn].
-      * split; [|discriminate]. unfold post.
-        split; [exact Hg|]. split; [reflexivity|]. split; [exact Hal|]. right. lia.
+      * split; [|discriminate]. split.
+        { unfold post0. split; [exact Hg|]. split; [reflexivity|]. split; [exact Hal|]. right. lia. }
+        unfold held_ok. split; [lia|]. split; [intros Hc; congruence|discriminate].
       * assert (n = 0) by lia. subst n.
         destruct e.
         -- (* zero-length read: retry *)
@@ -389,12 +423,14 @@ Proof.
            ++ destruct (rpos r' <? rtotal r'), (rpos r <? rtotal r); lia.
            ++ assert (H1 : 0 < 1) by lia. destruct (Hsc H1) as (Hc & _).
               specialize (Hc eq_refl). discriminate.
-        -- split; [|discriminate]. specialize (Heof eq_refl). unfold post.
-           split; [exact Hg|]. split; [reflexivity|]. split; [exact Hal|].
-           assert (Hsz : size s = rtotal r) by lia.
-           split; [exact Hsz|]. split; [rewrite <- Hsz; exact Hch|]. split; lia.
-        -- split; [|discriminate]. unfold post.
-           split; [exact Hg|]. split; [reflexivity|]. split; [exact Hal|]. apply Hfail. reflexivity.
+        -- split; [|discriminate]. specialize (Heof eq_refl). split.
+           { unfold post0. split; [exact Hg|]. split; [reflexivity|]. split; [exact Hal|].
+             assert (Hsz : size s = rtotal r) by lia.
+             split; [exact Hsz|]. split; [rewrite <- Hsz; exact Hch|]. split; lia. }
+           unfold held_ok. split; [lia|]. split; [intros _; exact Hmx|intros _; exact Hbr].
+        -- split; [|discriminate]. split.
+           { unfold post0. split; [exact Hg|]. split; [reflexivity|]. split; [exact Hal|]. apply Hfail. reflexivity. }
+           unfold held_ok. split; [lia|]. split; [intros _; exact Hmx|discriminate].
     + (* allocate the next buffer *)
       unfold allocate.
       destruct Hg as (G1 & G2 & G3 & G4).
@@ -472,8 +508,10 @@ Lemma run_spec fuel : forall s r,
   end.
 Proof.
   induction fuel as [|f IH]; intros s r Hl; cbn [run].
-  - split; [|lia]. unfold post. destruct Hl as (Hg & _ & _ & _ & _ & _ & _ & _ & Hal).
-    split; [exact Hg|]. split; [reflexivity|]. split; [exact Hal|]. exact I.
+  - split; [|lia]. destruct Hl as (Hg & Hlen & _ & Hbr & _ & _ & _ & Hmx & Hal).
+    pose proof (size_le_allocated _ Hlen). split.
+    { unfold post0. split; [exact Hg|]. split; [reflexivity|]. split; [exact Hal|]. exact I. }
+    unfold held_ok. split; [lia|]. split; [intros _; exact Hmx|discriminate].
   - pose proof (iter_spec s r Hl) as Hi. destruct (iter s r) as [o s' r'|s' r'].
     + destruct Hi as (Hp & Ho). split; [exact Hp|]. intros _. exact Ho.
     + destruct Hi as (L' & M' & T' & I' & Mu).
